@@ -36,7 +36,8 @@ ASSUMPTIONS = ['cleaned-away halos carry no merged particles (as in real data)',
 def gen(rng, tier):
     from e2_world import world as W
     from e2_world import catalog as C
-    world = W.gen_world(rng)
+    lc = rng.random() < 0.12
+    world = W.gen_world(rng, lc=lc)
     inds = [s['index'] for s in world['slabs']]
     kind = rng.choice(['zdir', 'zdir', 'halo_info', 'file', 'list', 'list'])
     order = list(inds)
@@ -45,7 +46,7 @@ def gen(rng, tier):
     elif kind == 'list':
         k = rng.randrange(1, len(inds) + 1)
         order = rng.sample(inds, k)
-    passthrough = rng.random() < 0.15
+    passthrough = rng.random() < 0.15 and not lc
     ab = rng.choice([['A'], ['B'], ['A', 'B'], ['A', 'B']])
     if passthrough:
         cols = rng.choice([['rvint', 'packedpid'], ['rvint'], ['packedpid']])
@@ -57,9 +58,13 @@ def gen(rng, tier):
             sub = True
             ab = ['A', 'B']
     unpack = rng.choice([False, False, True, ['pid', 'tagged'], ['lagr_pos', 'lagr_idx', 'density'], ['pid', 'lagr_idx']])
+    if lc:
+        ab = ['A']
+        cols = rng.choice([['pos', 'vel', 'pid'], ['pid'], ['pos'], ['rv']])
+        sub = rng.choice([{k: True for k in ['A'] + cols}, {k: True for k in ['A', 'B'] + cols}, True])
     return {'world': world, 'knobs': C.gen_knobs(rng),
             'path': {'kind': kind, 'order': order, 'slash': rng.random() < 0.3, 'as_path': rng.random() < 0.5},
-            'cleaned': bool(world['cleaned'] and rng.random() < 0.75), 'subsamples': sub, 'AB': ab,
+            'cleaned': bool(world['cleaned'] and rng.random() < 0.75) or lc, 'subsamples': sub, 'AB': ab,
             'unpack_bits': unpack, 'passthrough': passthrough,
             'fields': 'all' if passthrough else rng.choice(['DEFAULT_FIELDS', 'all', 'all'])}
 
@@ -74,7 +79,8 @@ def run(case):
         gd, written = W.write_world(world, root, knobs)
         before = C.tree_digest(root)
         arg, order = C.path_argument(world, gd, case['path'])
-        rows = W.expected_particles(world, order, case['cleaned'], case['AB'])
+        lc = bool(world.get('lc'))
+        rows = W.expected_particles(world, order, case['cleaned'] and not lc, case['AB'])
         kw = dict(cleaned=case['cleaned'], subsamples=copy.deepcopy(case['subsamples']), unpack_bits=case['unpack_bits'],
                   passthrough=case['passthrough'], fields=case['fields'])
         tabs = {}
@@ -87,7 +93,7 @@ def run(case):
                 violation(out, 'raises:' + type(e).__name__, 'CompaSOHaloCatalog', repr(e)[:400])
                 return out
             if poison == 'A':
-                bad = C.check_subsamples(cat, world, rows, case['AB'])
+                bad = C.check_lc_subsamples(cat, world) if lc else C.check_subsamples(cat, world, rows, case['AB'])
                 if bad:
                     violation(out, bad[0], 'CompaSOHaloCatalog.subsamples', bad[1])
                     return out
@@ -111,6 +117,8 @@ def run(case):
     if len(hs) == 0:
         bump(out['probes'], 'empty-catalogue')
     bump(out['probes'], 'path:' + case['path']['kind'])
+    if lc:
+        bump(out['probes'], 'light-cone-layout')
     out['events'].append(['load', order, len(rows), npart, case['cleaned'], case['AB']])
     out['steps'] = len(written)
     if len(rows) >= 2 and npart >= 1:
@@ -118,7 +126,7 @@ def run(case):
         out['nontrivial'] = [len(order), min(len(rows), 12) // 3, case['cleaned'], case['AB'],
                              sorted(k for k in sub if k not in 'AB') if isinstance(sub, dict) else 'all',
                              case['unpack_bits'], case['passthrough'], case['path']['kind'], knobs['io_block'],
-                             knobs['compression'], flags]
+                             knobs['compression'], flags, lc]
     return out
 
 
